@@ -83,6 +83,7 @@ class Summary:
         self.global_reads = set()
         self.calls = []
         self.escapes = []         # (root, node, how): stored into attribute / container of another object
+        self.constructs = []      # xr.DataArray(...) constructions: (node, data roots, keywords, func)
 
     def writes_param(self, p):
         return [e for e in self.events if e.root == ('param', p)]
@@ -294,6 +295,15 @@ class _Analyzer:
             # calling a function-valued parameter/attribute with aliasing args: may do anything -> assume reads only
             return lower(recv)
         t = self.prog.resolve_callable(self.f, self.mod, fnode)
+        if isinstance(t, BackendTable) and isinstance(fnode, ast.Call):
+            # mapper(agg)(args...): the selected backend function is called - consider the numpy and dask entries
+            out = set()
+            for slot, expr in t.entries.items():
+                if slot in ('cupy_func', 'dask_cupy_func'):
+                    continue
+                tgt = self.prog.resolve_callable(t.scope, self.mod, expr)
+                out |= self.apply(tgt, e, argvals, kwvals, 1)
+            return frozenset(out)
         return self.apply(t, e, argvals, kwvals)
 
     def apply(self, t, e, argvals, kwvals, depth=0):
@@ -335,6 +345,10 @@ class _Analyzer:
                 return FRESH
             if dn in ('dask.delayed', 'dask.delayed.delayed'):
                 return FRESH
+            if dn in ('xarray.DataArray', 'xarray.core.dataarray.DataArray'):
+                data = argvals[0] if argvals else kwvals.get('data', FRESH)
+                self.s.constructs.append((e, data, {k.arg: k.value for k in e.keywords if k.arg}, self.f))
+                return lower(data)
             if dn in ALIAS_FUNCS:
                 r = set()
                 for a in argvals:
